@@ -317,6 +317,18 @@ func RunC16(d *Driver) *Report {
 	for _, src := range c16Aliasing() {
 		c16Diff(r, src, "differential-aliasing", known)
 	}
+	// literals of different types whose printed forms coincide (a constant pool must keep them apart), and
+	// literals equal to the hidden constants of loops
+	for _, src := range []string{
+		"a := 2\nb := \"2\"\nc := 2\nd := \"2\"\na = a\nb = b\nc = c\nd = d\n",
+		"a := \"7\"\nb := 7\ns := a + \"x\"\nn := b + 1\ns = s\nn = n\n",
+		"t := true\ns := \"true\"\nf := \"false\"\ng := false\nt = t\ns = s\nf = f\ng = g\n",
+		"z := \"0\"\none := \"1\"\nx := 0\nfor i := range 3\n    x = x + i\nend\nfor c := range \"ab\"\n    z = z + c\nend\nfor e := range [5 6]\n    x = x + e\nend\nz = z\none = one\nx = x\n",
+		"a := [1 2]\nb := \"[1 2]\"\nc := 1.5\nd := \"1.5\"\na = a\nb = b\nc = c\nd = d\n",
+		"e := \"\"\nf := \" \"\ng := 0\nh := \"0\"\ne = e + h\nf = f\ng = g + 0\n",
+	} {
+		c16Diff(r, src, "differential-literals", known)
+	}
 	// --- 3. unsupported constructs must be compile errors
 	for _, c := range c16Unsupported() {
 		cr := CompileAndRun(c, false)
